@@ -21,6 +21,7 @@ func init() {
 			"R3: items.Add on the miss path is dominated by the nil edge of the create function's error. R4: the create call is dominated by the not-found edge of items.Get. " +
 			"R5: the expirable wrapper removes and re-creates exactly on the GetExpiresAt().Before(now) edge and returns the value unchanged otherwise. " +
 			"R6: from the found edge of items.Get(k) every path to the return passes items.Remove(k) and then items.Add(k, same value). R7: from the success edge of the create call every path to an exit inserts the value. " +
+			"Equivalent forms are accepted: the callback invoked through a nil-safe invoker method of the callback type; entries and keys handed through local copies or the parameters of a private helper; state kept in flags or in the nil-ness of a variable (path queries carry a valuation); the eviction moved into a private helper that GetOrCreate runs under the guard; the staleness test spelled now.After(expiry) or placed in a predicate helper. " +
 			"M1-M8: the ordered map keeps its list consistent (the rules of C10), since eviction order is the list order. R8: the expiry wrapper does not apply its staleness test to the result of GetOrCreate (which may be the value this call created) followed by an unconditional Remove of the key in a separate critical section (open finding).",
 		NotDecided: "refinement of a reference LRU over all call sequences; callback accounting as a count.",
 	})
@@ -32,7 +33,8 @@ func init() {
 		Explanation: "R1: every method call on the recency list and every access to the in-flight table happens with the cache mutex held. " +
 			"R2: the create call is reached only by the goroutine that registered the in-flight entry; from the registration every path to an exit closes the channel and deletes the entry, in the same critical section as the insert; the in-flight table is written only by registration, by that cleanup and by the constructor. " +
 			"R3: waiting for an in-flight creation and the create call itself run with the lock released, and a waiter goes back to the lookup. " +
-			"R4: every insert on the miss path is followed, before the lock is released, by the capacity test. R5: the delete callback runs under the mutex in the critical section of the removal it reports. Q1-Q7: the sequential LRU rules of C08 (a concurrent history must be equivalent to a sequential LRU history).",
+			"R4: every insert on the miss path is followed, before the lock is released, by the capacity test. R5: the delete callback runs under the mutex in the critical section of the removal it reports. " +
+			"Locksets see through private helpers that are only called with the mutex held and through literals run by a withLock-style wrapper; the in-flight table may map a key to the bare channel or to a record holding it (absence tested by comma-ok or, when only non-nil records are stored, by nil). Q1-Q7: the sequential LRU rules of C08 (a concurrent history must be equivalent to a sequential LRU history).",
 		NotDecided: "linearizability of histories; created-versus-deleted balance over schedules.",
 	})
 }
@@ -44,6 +46,42 @@ type lruRoles struct {
 	mGet, mRemove, mAdd, mLen, mFirst, mIt *ssa.Function
 	getOrCreate, remove, clear             *ssa.Function
 	methods                                []*ssa.Function
+	// bodies: the methods and the function literals nested in them (a critical section written as a closure that a
+	// withLock-style wrapper runs is code of the method)
+	bodies []*ssa.Function
+	// cbInvokers: methods of the delete-callback type that call their receiver when it is not nil, handing their
+	// parameters on in order ("nil-safe notify"); a call of one on the callback field is an invocation of the callback
+	// that carries its own nil guard
+	cbInvokers map[*ssa.Function]bool
+	// inflightChan: the channel field of the in-flight record when the table maps keys to a record (struct or pointer
+	// to struct) instead of the bare channel; nil for the bare channel
+	inflightChan *types.Var
+	locks        *lockViewH
+}
+
+// chanCarrier reports whether t is a channel, or a struct / pointer to struct with exactly one channel field (the
+// in-flight record); it returns that field (nil for the bare channel).
+func chanCarrier(t types.Type) (*types.Var, bool) {
+	if _, isChan := t.Underlying().(*types.Chan); isChan {
+		return nil, true
+	}
+	if p, isPtr := t.Underlying().(*types.Pointer); isPtr {
+		t = p.Elem()
+	}
+	st, isStruct := t.Underlying().(*types.Struct)
+	if !isStruct {
+		return nil, false
+	}
+	var res *types.Var
+	for i := 0; i < st.NumFields(); i++ {
+		if _, isChan := st.Field(i).Type().Underlying().(*types.Chan); isChan {
+			if res != nil {
+				return nil, false
+			}
+			res = st.Field(i).Origin()
+		}
+	}
+	return res, res != nil
 }
 
 func resolveLRURoles(c *Ctx) *lruRoles {
@@ -53,16 +91,21 @@ func resolveLRURoles(c *Ctx) *lruRoles {
 	if r.ecache == nil || mapT == nil {
 		c.Fatalf("role ECache / iterable.Map not found")
 	}
-	r.mutex = c.oneField("lru.mutex", r.ecache, func(f *types.Var) bool { return ir.IsNamed(f.Type(), "sync", "Mutex") })
+	// the cache mutex: a sync.Mutex, or a sync.RWMutex (its exclusive Lock/Unlock carry the same lockset entry; a shared
+	// RLock does not count as holding it)
+	r.mutex = c.oneField("lru.mutex", r.ecache, func(f *types.Var) bool {
+		return ir.IsNamed(f.Type(), "sync", "Mutex") || ir.IsNamed(f.Type(), "sync", "RWMutex")
+	})
 	r.items = c.oneField("lru.items", r.ecache, func(f *types.Var) bool { return namedOf(f.Type()) == mapT })
 	r.inflight = c.oneField("lru.inflight", r.ecache, func(f *types.Var) bool {
 		m, ok := f.Type().Underlying().(*types.Map)
 		if !ok {
 			return false
 		}
-		_, isChan := m.Elem().Underlying().(*types.Chan)
-		return isChan
+		_, carries := chanCarrier(m.Elem())
+		return carries
 	})
+	r.inflightChan, _ = chanCarrier(r.inflight.Type().Underlying().(*types.Map).Elem())
 	r.capacity = c.oneField("lru.capacity", r.ecache, func(f *types.Var) bool { return types.Identical(f.Type(), types.Typ[types.Int]) })
 	createT := c.P.LookupType("container/lru", "CreatePoolElemF")
 	onDelT := c.P.LookupType("container/lru", "OnDeleteElemF")
@@ -72,12 +115,94 @@ func resolveLRURoles(c *Ctx) *lruRoles {
 	r.mGet, r.mRemove, r.mAdd, r.mLen, r.mFirst, r.mIt = mm("Get"), mm("Remove"), mm("Add"), mm("Len"), mm("First"), mm("Iterator")
 	em := func(name string) *ssa.Function { return c.RequireFn(c.P.MethodOf(r.ecache, name), "ECache."+name) }
 	r.getOrCreate, r.remove, r.clear = em("GetOrCreate"), em("Remove"), em("Clear")
+	isMethod := map[*ssa.Function]bool{}
 	for _, m := range c.P.MethodsOf(r.ecache) {
 		if len(m.Blocks) > 0 {
 			r.methods = append(r.methods, m)
+			isMethod[m] = true
 		}
 	}
+	r.bodies = append(r.bodies, r.methods...)
+	for _, fn := range c.P.FuncsOf("container/lru") {
+		if fn.Parent() != nil && len(fn.Blocks) > 0 && isMethod[rootFnH(fn)] {
+			r.bodies = append(r.bodies, fn)
+		}
+	}
+	r.cbInvokers = map[*ssa.Function]bool{}
+	if onDelT != nil {
+		for _, m := range c.P.MethodsOf(onDelT) {
+			if len(m.Blocks) > 0 && isNilSafeInvoker(m) {
+				r.cbInvokers[m] = true
+				c.Role("lru.onDelete.invoker", relName(m), m.Pos())
+				c.Saw(m)
+			}
+		}
+	}
+	r.locks = newLockViewH(c.P, "container/lru")
 	return r
+}
+
+// isNilSafeInvoker: m is a method of a function type whose body calls the receiver with the parameters of m in order,
+// on every path to an exit except the one on which the receiver is nil, and does nothing else that matters (no other
+// call).
+func isNilSafeInvoker(m *ssa.Function) bool {
+	if m.Signature.Recv() == nil || len(m.Params) == 0 {
+		return false
+	}
+	if _, isFn := m.Signature.Recv().Type().Underlying().(*types.Signature); !isFn {
+		return false
+	}
+	recv := m.Params[0]
+	var inv *ssa.Call
+	n := 0
+	ir.Instrs(m, func(in ssa.Instruction) {
+		if ci, ok := in.(ssa.CallInstruction); ok {
+			n++
+			if call, isCall := in.(*ssa.Call); isCall && !ci.Common().IsInvoke() && ir.Resolve(ci.Common().Value) == ssa.Value(recv) {
+				inv = call
+			}
+		}
+	})
+	if inv == nil || n != 1 || len(inv.Call.Args) != len(m.Params)-1 {
+		return false
+	}
+	for i, a := range inv.Call.Args {
+		if ir.Resolve(a) != ssa.Value(m.Params[i+1]) {
+			return false
+		}
+	}
+	w, err := (ir.Flow{Fn: m, Block: func(x ssa.Instruction) bool { return x == ssa.Instruction(inv) },
+		BlockEdge: func(from, to *ssa.BasicBlock) bool {
+			f := ir.EdgeFact(from, to)
+			if f == nil {
+				return false
+			}
+			cm, ok := f.Cmp()
+			if !ok || cm.Op != token.EQL {
+				return false
+			}
+			return (ir.Resolve(cm.X) == ssa.Value(recv) && ir.IsNilConst(cm.Y)) || (ir.Resolve(cm.Y) == ssa.Value(recv) && ir.IsNilConst(cm.X))
+		}, Target: ir.IsExit}).Find()
+	return w == nil && err == nil
+}
+
+// cbCall decodes an invocation of the delete callback: the call of the function value loaded from the callback field
+// (guarded = false: the caller must test it for nil), or a call of a nil-safe invoker method on that field
+// (guarded = true). args are the arguments the callback receives.
+func (r *lruRoles) cbCall(in ssa.Instruction) (call *ssa.Call, args []ssa.Value, guarded bool) {
+	if cc := fnValueCall(in, r.onDel); cc != nil {
+		return cc, cc.Call.Args, false
+	}
+	cc, ok := in.(*ssa.Call)
+	if !ok || cc.Call.IsInvoke() || len(cc.Call.Args) == 0 {
+		return nil, nil, false
+	}
+	if cal := ir.StaticCallee(cc); cal != nil && r.cbInvokers[cal] {
+		if _, isF := loadOfField(cc.Call.Args[0], r.onDel); isF {
+			return cc, cc.Call.Args[1:], true
+		}
+	}
+	return nil, nil, false
 }
 
 // itemsCall returns the call when in calls method m on the recency list field.
@@ -99,6 +224,39 @@ func (r *lruRoles) anyItemsCall(in ssa.Instruction) *ssa.Call {
 		}
 	}
 	return nil
+}
+
+// gocScope: the code that runs on behalf of GetOrCreate - the method itself, and the private helpers and literals it
+// runs; the other exported operations (which may share helpers with it) are not part of it.
+func (r *lruRoles) gocScope() map[*ssa.Function]bool {
+	res := map[*ssa.Function]bool{}
+	for _, fn := range r.locks.reachable(r.getOrCreate) {
+		root := rootFnH(fn)
+		if root != r.getOrCreate && (root.Object() == nil || root.Object().Exported()) {
+			continue
+		}
+		res[fn] = true
+	}
+	return res
+}
+
+// firstRooted reports whether a key operand is the key items.First() returned, through any chain of copies.
+func (r *lruRoles) firstRooted(key ssa.Value) bool {
+	roots := ir.CopyRoots(key)
+	if len(roots) == 0 {
+		return false
+	}
+	for _, o := range roots {
+		ex, ok := o.(*ssa.Extract)
+		if !ok || ex.Index != 0 {
+			return false
+		}
+		fc, ok := ex.Tuple.(*ssa.Call)
+		if !ok || r.itemsCall(fc, r.mFirst) == nil {
+			return false
+		}
+	}
+	return true
 }
 
 // fnValueCall reports whether in invokes a function value loaded from field f.
@@ -134,7 +292,8 @@ func runC08(c *Ctx) {
 func lruSequentialRules(c *Ctx, pfx string) {
 	r := resolveLRURoles(c)
 	// R1 callback paired with removal
-	for _, fn := range r.methods {
+	for _, fn := range r.bodies {
+		fn := fn
 		ir.Instrs(fn, func(in ssa.Instruction) {
 			rem := r.itemsCall(in, r.mRemove)
 			if rem == nil {
@@ -144,14 +303,15 @@ func lruSequentialRules(c *Ctx, pfx string) {
 			// exemption: move to most recent = Add of the same key before the lock is released, on all paths
 			isReAdd := func(x ssa.Instruction) bool {
 				a := r.itemsCall(x, r.mAdd)
-				return a != nil && same(a.Call.Args[1], key)
+				return a != nil && sameKeyH(a.Call.Args[1], key)
 			}
-			if w, _ := (ir.Query{Fn: fn, From: rem, Block: isReAdd, Target: func(x ssa.Instruction) bool { return ir.IsExit(x) || r.isUnlock(x) }}).Find(); w == nil {
+			if w, _ := (ir.Flow{Fn: fn, From: rem, Block: isReAdd, Target: func(x ssa.Instruction) bool { return ir.IsExit(x) || r.isUnlock(x) }}).Find(); w == nil {
 				c.Decide(pfx+"1", fn, "removal paired with callback (re-insert of the same key)", rem, true, "")
 				return
 			}
-			// the callback: invoked on all paths except the edge where it is nil
-			isCb := func(x ssa.Instruction) bool { return fnValueCall(x, r.onDel) != nil }
+			// the callback: invoked on all paths except the edge where it is nil (a nil-safe invoker carries that guard
+			// itself)
+			isCb := func(x ssa.Instruction) bool { cb, _, _ := r.cbCall(x); return cb != nil }
 			nilEdge := func(from, to *ssa.BasicBlock) bool {
 				f := ir.EdgeFact(from, to)
 				if f == nil {
@@ -165,18 +325,18 @@ func lruSequentialRules(c *Ctx, pfx string) {
 				_, isCbY := loadOfField(cm.Y, r.onDel)
 				return (isCbX && ir.IsNilConst(cm.Y)) || (isCbY && ir.IsNilConst(cm.X))
 			}
-			if !c.NoPath(pfx+"1", "removal paired with callback", rem, ir.Query{Fn: fn, From: rem, Block: isCb, BlockEdge: nilEdge, Target: ir.IsExit},
+			if !c.NoFlow(pfx+"1", "removal paired with callback", rem, ir.Flow{Fn: fn, From: rem, Block: isCb, BlockEdge: nilEdge, Target: ir.IsExit},
 				"an entry leaves the cache without the delete callback") {
 				return
 			}
 			// the callback gets the pair that belonged to the removed key
 			ir.Instrs(fn, func(x ssa.Instruction) {
-				cb := fnValueCall(x, r.onDel)
+				cb, args, _ := r.cbCall(x)
 				if cb == nil || !ir.Dominates(rem, cb) {
 					return
 				}
-				ok := true
-				for _, a := range cb.Call.Args {
+				ok := len(args) > 0
+				for _, a := range args {
 					if !r.pairOfKey(a, key) {
 						ok = false
 					}
@@ -213,49 +373,72 @@ func lruSequentialRules(c *Ctx, pfx string) {
 
 	// R2 eviction target and strict overflow test after the Add
 	{
-		n := 0
+		// the removals to judge: in GetOrCreate every removal of another key than the looked-up one; in the private helpers
+		// and literals GetOrCreate runs, the removals of a First() key (the eviction moved into a helper)
+		var sites []*ssa.Call
 		ir.Instrs(goc, func(in ssa.Instruction) {
-			rem := r.itemsCall(in, r.mRemove)
-			if rem == nil || same(rem.Call.Args[1], getCall.Call.Args[1]) {
-				return
+			if rem := r.itemsCall(in, r.mRemove); rem != nil && !sameKeyH(rem.Call.Args[1], getCall.Call.Args[1]) {
+				sites = append(sites, rem)
 			}
-			n++
-			key := ir.Resolve(rem.Call.Args[1])
-			okFirst := false
-			if ex, ok := key.(*ssa.Extract); ok && ex.Index == 0 {
-				if fc, ok := ex.Tuple.(*ssa.Call); ok && r.itemsCall(fc, r.mFirst) != nil {
-					okFirst = true
-				}
+		})
+		scope := r.gocScope()
+		for _, fn := range r.locks.reachable(goc) {
+			if fn == goc || !scope[fn] {
+				continue
 			}
-			c.Decide(pfx+"2", goc, "evicted key = items.First()", rem, okFirst, "the evicted key is not the oldest entry of the recency list")
-			okCmp := hasFactCmp(rem.Block(), func(cm ir.Cmp) bool {
-				lenX := r.itemsCall(asInstr(cm.X), r.mLen) != nil
-				lenY := r.itemsCall(asInstr(cm.Y), r.mLen) != nil
-				_, capX := loadOfField(cm.X, r.capacity)
-				_, capY := loadOfField(cm.Y, r.capacity)
-				var lenCall ssa.Value
-				ok := false
-				if lenX && capY && cm.Op == token.GTR {
-					ok, lenCall = true, cm.X
+			ir.Instrs(fn, func(in ssa.Instruction) {
+				if rem := r.itemsCall(in, r.mRemove); rem != nil && r.firstRooted(rem.Call.Args[1]) {
+					sites = append(sites, rem)
 				}
-				if capX && lenY && cm.Op == token.LSS {
-					ok, lenCall = true, cm.Y
-				}
-				if !ok {
+			})
+		}
+		// afterAdd: the instruction runs after an insert of this GetOrCreate (in its function, or at every place its helper
+		// is called from)
+		afterAdd := func(x ssa.Instruction) bool {
+			if x == nil {
+				return false
+			}
+			return r.locks.holdsInterIn(x, scope, func(at ssa.Instruction) bool {
+				found := false
+				if rootFnH(at.Parent()) != goc {
 					return false
 				}
-				// Len() evaluated after the Add
-				after := false
-				ir.Instrs(goc, func(x ssa.Instruction) {
-					if a := r.itemsCall(x, r.mAdd); a != nil && ir.Dominates(a, asInstr(lenCall)) {
-						after = true
+				ir.Instrs(at.Parent(), func(y ssa.Instruction) {
+					if a := r.itemsCall(y, r.mAdd); a != nil && ir.Dominates(a, at) {
+						found = true
 					}
 				})
-				return after
+				return found
 			})
-			c.Decide(pfx+"2", goc, "eviction guarded by Len() > capacity after the insert", rem, okCmp, "the eviction is not guarded by the strict test Len()>capacity evaluated after the insert (evicts one entry too early/late)")
-		})
-		if n == 0 {
+		}
+		for _, rem := range sites {
+			rem := rem
+			fn := rem.Parent()
+			c.Decide(pfx+"2", fn, "evicted key = items.First()", rem, r.firstRooted(rem.Call.Args[1]), "the evicted key is not the oldest entry of the recency list")
+			okCmp := r.locks.holdsInterIn(rem, scope, func(at ssa.Instruction) bool {
+				return hasFactCmp(at.Block(), func(cm ir.Cmp) bool {
+					lenX := r.itemsCall(asInstr(cm.X), r.mLen) != nil
+					lenY := r.itemsCall(asInstr(cm.Y), r.mLen) != nil
+					_, capX := loadOfField(cm.X, r.capacity)
+					_, capY := loadOfField(cm.Y, r.capacity)
+					var lenCall ssa.Value
+					ok := false
+					if lenX && capY && cm.Op == token.GTR {
+						ok, lenCall = true, cm.X
+					}
+					if capX && lenY && cm.Op == token.LSS {
+						ok, lenCall = true, cm.Y
+					}
+					if !ok {
+						return false
+					}
+					// Len() evaluated after the Add
+					return afterAdd(asInstr(lenCall))
+				})
+			})
+			c.Decide(pfx+"2", fn, "eviction guarded by Len() > capacity after the insert", rem, okCmp, "the eviction is not guarded by the strict test Len()>capacity evaluated after the insert (evicts one entry too early/late)")
+		}
+		if len(sites) == 0 {
 			c.Decide(pfx+"2", goc, "GetOrCreate evicts on overflow", nil, false, "no eviction found in GetOrCreate")
 		}
 	}
@@ -296,26 +479,26 @@ func lruSequentialRules(c *Ctx, pfx string) {
 	// R6 hit becomes most recent
 	{
 		key := getCall.Call.Args[1]
-		var foundBlk *ssa.BasicBlock
-		for _, b := range goc.Blocks {
-			if len(b.Preds) == 1 && foundFact(b, true) {
-				if f := ir.EdgeFact(b.Preds[0], b); f != nil {
-					if ex, ok := f.StripNot().Cond.(*ssa.Extract); ok && ex.Tuple == ssa.Value(getCall) {
-						foundBlk = b
-					}
+		// the "found" result of the lookup
+		var foundV ssa.Value
+		if refs := getCall.Referrers(); refs != nil {
+			for _, ref := range *refs {
+				if ex, ok := ref.(*ssa.Extract); ok && ex.Index == 1 {
+					foundV = ex
 				}
 			}
 		}
-		if foundBlk == nil {
+		if foundV == nil {
 			c.Undecided(pfx+"6", goc, "hit becomes most recent", getCall, "cannot locate the found edge of the lookup")
 		} else {
+			found := []ir.Fact{{Cond: foundV, True: true}}
 			isRem := func(x ssa.Instruction) bool {
 				rm := r.itemsCall(x, r.mRemove)
-				return rm != nil && same(rm.Call.Args[1], key)
+				return rm != nil && sameKeyH(rm.Call.Args[1], key)
 			}
 			isAdd := func(x ssa.Instruction) bool {
 				a := r.itemsCall(x, r.mAdd)
-				if a == nil || !same(a.Call.Args[1], key) {
+				if a == nil || !sameKeyH(a.Call.Args[1], key) {
 					return false
 				}
 				// same value as found
@@ -326,12 +509,13 @@ func lruSequentialRules(c *Ctx, pfx string) {
 				}
 				return false
 			}
-			ok1 := c.NoPath(pfx+"6", "hit: entry removed from its old position", getCall, ir.Query{Fn: goc, FromBlock: foundBlk, Block: isRem, Target: ir.IsExit},
+			// from the lookup, with the key found, every path to an exit (or back to the lookup) moves the entry
+			ok1 := c.NoFlow(pfx+"6", "hit: entry removed from its old position", getCall, ir.Flow{Fn: goc, From: getCall, Assume: found, Block: isRem, Target: ir.IsExit},
 				"a hit can return without moving the entry to the most-recent end: a later eviction removes a recently used entry")
 			if ok1 {
 				ir.Instrs(goc, func(x ssa.Instruction) {
 					if isRem(x) && foundFact(x.Block(), true) {
-						c.NoPath(pfx+"6", "hit: entry re-added at the most-recent end", x, ir.Query{Fn: goc, From: x, Block: isAdd, Target: ir.IsExit},
+						c.NoFlow(pfx+"6", "hit: entry re-added at the most-recent end", x, ir.Flow{Fn: goc, From: x, Block: isAdd, Target: ir.IsExit},
 							"on a hit the entry is removed but not re-added with the same value")
 					}
 				})
@@ -376,7 +560,7 @@ func lruSequentialRules(c *Ctx, pfx string) {
 		if okBlk == nil {
 			c.Undecided(pfx+"7", goc, "created value becomes resident", createCall, "cannot find the success edge of the create function")
 		} else {
-			c.NoPath(pfx+"7", "created value becomes resident", createCall, ir.Query{Fn: goc, FromBlock: okBlk,
+			c.NoFlow(pfx+"7", "created value becomes resident", createCall, ir.Flow{Fn: goc, FromBlock: okBlk,
 				Block:  func(x ssa.Instruction) bool { return r.itemsCall(x, r.mAdd) != nil },
 				Target: ir.IsExit}, "a successfully created value can be returned without being inserted: it is neither resident nor ever passed to the delete callback (leaked), and the next request creates the key again")
 		}
@@ -458,47 +642,115 @@ func baseOf(v ssa.Value) ssa.Value {
 }
 
 // pairOfKey reports whether v is read from the pair that items.Get(key) returned, or from the same iterator
-// entry the key was read from.
-func (r *lruRoles) pairOfKey(v ssa.Value, key ssa.Value) bool {
-	vb, kb := baseOf(v), baseOf(key)
-	// the cell (or tuple) that holds the entry
-	feeds := func(cell ssa.Value) []ssa.Value {
-		if al, ok := cell.(*ssa.Alloc); ok {
-			var res []ssa.Value
-			for _, st := range ir.StoresTo(al) {
-				res = append(res, st.Val)
-			}
-			return res
-		}
-		return []ssa.Value{cell}
+// entry the key was read from - directly or through any chain of local copies (a helper parameter after inlining, a
+// struct variable, a captured variable): every value it can stem from must be such an entry.
+func (r *lruRoles) pairOfKey(v ssa.Value, key ssa.Value) bool { return r.pairOfKeyD(v, key, 0) }
+
+func (r *lruRoles) pairOfKeyD(v ssa.Value, key ssa.Value, depth int) bool {
+	roots := ir.CopyRoots(v)
+	if len(roots) == 0 {
+		return false
 	}
-	for _, f := range feeds(vb) {
+	keyRoots := ir.CopyRoots(key)
+	// both handed in as parameters of a private helper ("dropLocked(k, e)"): the pair must belong to the key at every
+	// place the helper is called from
+	if vp, isP := roots[0].(*ssa.Parameter); isP && len(roots) == 1 && depth < 3 {
+		kp, isKP := ir.Resolve(key).(*ssa.Parameter)
+		fn := vp.Parent()
+		if !isKP || kp.Parent() != fn {
+			return false
+		}
+		idx := func(p *ssa.Parameter) int {
+			for i, q := range fn.Params {
+				if q == p {
+					return i
+				}
+			}
+			return -1
+		}
+		vi, ki := idx(vp), idx(kp)
+		sites, ok := r.locks.callersOf(fn)
+		if !ok || vi < 0 || ki < 0 || fn.Parent() != nil {
+			return false
+		}
+		for _, s := range sites {
+			call, isCall := s.(*ssa.Call)
+			if !isCall || vi >= len(call.Call.Args) || ki >= len(call.Call.Args) {
+				return false
+			}
+			if !r.pairOfKeyD(call.Call.Args[vi], call.Call.Args[ki], depth+1) {
+				return false
+			}
+		}
+		return true
+	}
+	for _, f := range roots {
 		ex, ok := f.(*ssa.Extract)
 		if !ok {
-			continue
+			return false
 		}
 		call, ok := ex.Tuple.(*ssa.Call)
 		if !ok {
-			continue
+			return false
 		}
-		if g := r.itemsCall(call, r.mGet); g != nil && same(g.Call.Args[1], key) {
-			return true
+		if g := r.itemsCall(call, r.mGet); g != nil && ex.Index == 0 && sameKeyH(g.Call.Args[1], key) {
+			continue
 		}
 		if call.Call.IsInvoke() && call.Call.Method.Name() == "Next" {
 			// the key must come from the same entry
-			for _, kf := range feeds(kb) {
-				if ke, ok := kf.(*ssa.Extract); ok && ke.Tuple == ssa.Value(call) {
-					return true
+			fromSame := len(keyRoots) > 0
+			for _, kf := range keyRoots {
+				if ke, ok := kf.(*ssa.Extract); !ok || ke.Tuple != ssa.Value(call) {
+					fromSame = false
 				}
 			}
+			if fromSame {
+				continue
+			}
 		}
+		return false
 	}
-	return false
+	return true
+}
+
+// sameKeyH: the two key operands are the same value - the same SSA value after resolution, or both copies (no field
+// selection on the way) of one and the same root value.
+func sameKeyH(a, b ssa.Value) bool {
+	if same(a, b) {
+		return true
+	}
+	pure := func(v ssa.Value) ssa.Value {
+		for i := 0; i < 16; i++ {
+			v = ir.Resolve(v)
+			u, ok := v.(*ssa.UnOp)
+			if !ok || u.Op != token.MUL {
+				return v
+			}
+			var cell ssa.Value
+			switch x := u.X.(type) {
+			case *ssa.Alloc:
+				cell = x
+			case *ssa.FreeVar:
+				cell = ir.BindingOf(x)
+			}
+			if cell == nil {
+				return v
+			}
+			sts := ir.StoresTo(cell)
+			if len(sts) != 1 {
+				return v
+			}
+			v = sts[0].Val
+		}
+		return v
+	}
+	pa, pb := pure(a), pure(b)
+	return pa != nil && pa == pb
 }
 
 // onlyViaMiss: every path from the entry to the create call passes the not-found edge of the lookup.
 func (c *Ctx) onlyViaMiss(fn *ssa.Function, get, create *ssa.Call) bool {
-	w, err := (ir.Query{Fn: fn, From: get, Assume: []ir.Fact{}, Target: func(x ssa.Instruction) bool { return x == ssa.Instruction(create) },
+	w, err := (ir.Flow{Fn: fn, From: get, Target: func(x ssa.Instruction) bool { return x == ssa.Instruction(create) },
 		BlockEdge: func(from, to *ssa.BasicBlock) bool {
 			f := ir.EdgeFact(from, to)
 			if f == nil {
@@ -510,6 +762,101 @@ func (c *Ctx) onlyViaMiss(fn *ssa.Function, get, create *ssa.Call) bool {
 		},
 		Block: func(x ssa.Instruction) bool { return x == ssa.Instruction(get) }}).Find()
 	return w == nil && err == nil
+}
+
+// freshNonNilH: v is a newly made channel or object (make(chan), &T{}, new(T)), directly or as the result of a
+// constructor function of the package all of whose returns are one - a value that is certainly not nil.
+func freshNonNilH(v ssa.Value, depth int) bool {
+	switch x := ir.Resolve(v).(type) {
+	case *ssa.MakeChan, *ssa.Alloc:
+		return true
+	case *ssa.Call:
+		cal := ir.StaticCallee(x)
+		if depth > 2 || cal == nil || x.Call.IsInvoke() || len(cal.Blocks) == 0 || cal.Signature.Results().Len() != 1 {
+			return false
+		}
+		rets := ir.Returns(cal)
+		for _, ret := range rets {
+			for _, o := range phiClosure(ir.Resolve(ir.ResultValue(ret, 0))) {
+				if !freshNonNilH(o, depth+1) {
+					return false
+				}
+			}
+		}
+		return len(rets) > 0
+	}
+	return false
+}
+
+// staleTestH decodes a boolean value as the staleness test "the expiry time is before now" - which is true exactly
+// when the item is stale. The two spellings of the strict comparison are equivalent for all operands
+// (a.Before(b) == b.After(a)); the non-strict ones (!a.After(b)) are not and are not accepted. The test may sit in a
+// predicate function of the package that returns it for its parameters. subject is the value whose expiry is read (the
+// receiver chain of the expiry operand is followed to its root), now the other operand, both in terms of the caller.
+func staleTestH(v ssa.Value, depth int) (subject, now ssa.Value, ok bool) {
+	call, isCall := v.(*ssa.Call)
+	if !isCall || depth > 3 || call.Call.IsInvoke() {
+		return nil, nil, false
+	}
+	rootRecv := func(x ssa.Value) ssa.Value {
+		for i := 0; i < 8; i++ {
+			x = ir.Resolve(x)
+			cc, isC := x.(*ssa.Call)
+			if !isC {
+				return x
+			}
+			if cc.Call.IsInvoke() {
+				x = cc.Call.Value
+				continue
+			}
+			if r := ir.Recv(cc); r != nil {
+				x = r
+				continue
+			}
+			return x
+		}
+		return x
+	}
+	switch ir.CalleeFullName(call) {
+	case "(time.Time).Before":
+		return rootRecv(call.Call.Args[0]), call.Call.Args[1], true
+	case "(time.Time).After":
+		return rootRecv(call.Call.Args[1]), call.Call.Args[0], true
+	}
+	cal := ir.StaticCallee(call)
+	if cal == nil || len(cal.Blocks) == 0 || cal.Pkg == nil || call.Parent() == nil || rootFnH(call.Parent()).Pkg != cal.Pkg {
+		return nil, nil, false
+	}
+	if cal.Signature.Results().Len() != 1 {
+		return nil, nil, false
+	}
+	mapParam := func(x ssa.Value) ssa.Value {
+		x = ir.Resolve(x)
+		if p, isP := x.(*ssa.Parameter); isP {
+			for i, q := range cal.Params {
+				if q == p && i < len(call.Call.Args) {
+					return call.Call.Args[i]
+				}
+			}
+		}
+		return x
+	}
+	rets := ir.Returns(cal)
+	if len(rets) == 0 {
+		return nil, nil, false
+	}
+	for _, ret := range rets {
+		s, n, okR := staleTestH(ir.Resolve(ir.ResultValue(ret, 0)), depth+1)
+		if !okR {
+			return nil, nil, false
+		}
+		s, n = mapParam(s), mapParam(n)
+		if subject != nil && (ir.Resolve(s) != ir.Resolve(subject) || ir.Resolve(n) != ir.Resolve(now)) {
+			return nil, nil, false
+		}
+		subject, now = s, n
+	}
+	return subject, now, true
 }
 
 func (c *Ctx) expirableWrapper(r *lruRoles, rule string) {
@@ -545,18 +892,22 @@ func (c *Ctx) expirableWrapper(r *lruRoles, rule string) {
 	isExpired := func(b *ssa.BasicBlock, want bool) bool {
 		return ir.HasFact(b, func(f ir.Fact) bool {
 			f = f.StripNot()
-			call, ok := f.Cond.(*ssa.Call)
-			if !ok || ir.CalleeFullName(call) != "(time.Time).Before" || f.True != want {
+			if f.True != want {
 				return false
 			}
-			// receiver: GetExpiresAt() of the cached value; argument: a time.Now() taken in this function
-			now, isNow := ir.Resolve(call.Call.Args[1]).(*ssa.Call)
+			// "expiry before now", in either spelling (t.Before(now), now.After(t)), directly or through a predicate
+			// helper; the expiry is GetExpiresAt() of the cached value, now a time.Now() taken by the wrapper
+			_, nowV, ok := staleTestH(f.Cond, 0)
+			if !ok {
+				return false
+			}
+			now, isNow := ir.Resolve(nowV).(*ssa.Call)
 			return isNow && ir.CalleeFullName(now) == "time.Now"
 		})
 	}
 	for _, rm := range rems {
 		c.Decide(rule, fn, "Remove only on the expired edge", rm, isExpired(rm.Block(), true), "the wrapper removes an item that is not expired (GetExpiresAt().Before(now))")
-		c.NoPath(rule, "expired item is created again", rm, ir.Query{Fn: fn, From: rm,
+		c.NoFlow(rule, "expired item is created again", rm, ir.Flow{Fn: fn, From: rm,
 			Block: func(x ssa.Instruction) bool {
 				for _, g := range gocs {
 					if x == ssa.Instruction(g) {
@@ -571,7 +922,7 @@ func (c *Ctx) expirableWrapper(r *lruRoles, rule string) {
 	for _, ret := range ir.Returns(fn) {
 		for _, g := range gocs[1:] {
 			ret, g := ret, g
-			if w, _ := (ir.Query{Fn: fn, From: g, Target: func(x ssa.Instruction) bool { return x == ssa.Instruction(ret) }}).Find(); w == nil {
+			if w, _ := (ir.Flow{Fn: fn, From: g, Target: func(x ssa.Instruction) bool { return x == ssa.Instruction(ret) }}).Find(); w == nil {
 				continue
 			}
 			carries := func(v ssa.Value, idx int) bool {
@@ -610,20 +961,24 @@ func (c *Ctx) expirableWrapper(r *lruRoles, rule string) {
 func runC09(c *Ctx) {
 	r := resolveLRURoles(c)
 	mpath := "recv." + r.mutex.Name()
+	lv := r.locks
 	// R1 lockset
-	for _, fn := range r.methods {
-		ls := ir.ComputeLockset(fn, nil)
+	for _, fn := range r.bodies {
+		fn := fn
 		ir.Instrs(fn, func(in ssa.Instruction) {
 			if call := r.anyItemsCall(in); call != nil {
-				c.Decide("C09.R1", fn, "recency list used under the lock", in, ls.Held(in, mpath), "the recency list is accessed without the cache mutex")
+				c.Decide("C09.R1", fn, "recency list used under the lock", in, lv.Held(in, mpath), "the recency list is accessed without the cache mutex")
 			}
 			if fa, ok := in.(*ssa.FieldAddr); ok && ir.FieldOf(fa) == r.inflight {
-				c.Decide("C09.R1", fn, "in-flight table used under the lock", in, ls.Held(in, mpath), "the in-flight table is accessed without the cache mutex")
+				c.Decide("C09.R1", fn, "in-flight table used under the lock", in, lv.Held(in, mpath), "the in-flight table is accessed without the cache mutex")
 			}
 			// iterators over the list
 			if call, ok := in.(*ssa.Call); ok && call.Call.IsInvoke() && (call.Call.Method.Name() == "Next" || call.Call.Method.Name() == "HasNext") {
-				if oc, ok := ir.Resolve(call.Call.Value).(*ssa.Call); ok && r.itemsCall(oc, r.mIt) != nil {
-					c.Decide("C09.R1", fn, "list iterator used under the lock", in, ls.Held(in, mpath), "an iterator over the recency list is advanced without the cache mutex")
+				for _, o := range ir.CopyRoots(call.Call.Value) {
+					if oc, ok := o.(*ssa.Call); ok && r.itemsCall(oc, r.mIt) != nil {
+						c.Decide("C09.R1", fn, "list iterator used under the lock", in, lv.Held(in, mpath), "an iterator over the recency list is advanced without the cache mutex")
+						break
+					}
 				}
 			}
 		})
@@ -656,66 +1011,131 @@ func runC09(c *Ctx) {
 		_, isIn := loadOfField(cc.Args[0], r.inflight)
 		return isIn
 	}
+	// every registration stores a non-nil record: then "the looked-up record is nil" means "no entry"
+	regsNonNil := true
+	for _, fn := range c.P.FuncsOf("container/lru") {
+		ir.Instrs(fn, func(in ssa.Instruction) {
+			if isReg(in) {
+				for _, o := range phiClosure(ir.Resolve(in.(*ssa.MapUpdate).Value)) {
+					if !freshNonNilH(o, 0) {
+						regsNonNil = false
+					}
+				}
+			}
+		})
+	}
+	// recordOf: the in-flight record a channel operand belongs to (the operand itself for the bare-channel table)
+	recordOf := func(v ssa.Value) ssa.Value {
+		v = ir.Resolve(v)
+		if r.inflightChan != nil {
+			if u, ok := v.(*ssa.UnOp); ok && u.Op == token.MUL {
+				if fa, isFA := u.X.(*ssa.FieldAddr); isFA && ir.FieldOf(fa) == r.inflightChan {
+					return ir.Resolve(fa.X)
+				}
+			}
+			if f, ok := v.(*ssa.Field); ok && ir.FieldOf(f) == r.inflightChan {
+				return ir.Resolve(f.X)
+			}
+		}
+		return v
+	}
 	// R2 single flight
 	{
-		c.NoPath("C09.R2", "create only after registering in the in-flight table", createCall, ir.Query{Fn: goc, Block: isReg,
-			Target: func(x ssa.Instruction) bool { return x == ssa.Instruction(createCall) }},
-			"the create function can run for a key without this goroutine having registered it as in flight: two creations of one key can overlap")
+		regHere, regElsewhere := 0, 0
+		for _, fn := range lv.reachable(goc) {
+			fn := fn
+			ir.Instrs(fn, func(in ssa.Instruction) {
+				if isReg(in) {
+					if fn == goc {
+						regHere++
+					} else {
+						regElsewhere++
+					}
+				}
+			})
+		}
+		if regHere == 0 && regElsewhere > 0 {
+			// the registration sits in a helper that registers on some of its paths only: which paths of GetOrCreate have
+			// registered cannot be read off GetOrCreate itself
+			c.Undecided("C09.R2", goc, "create only after registering in the in-flight table", createCall, "the in-flight registration is performed by a helper of GetOrCreate; the rule needs it in line (normal form)")
+		} else {
+			c.NoFlow("C09.R2", "create only after registering in the in-flight table", createCall, ir.Flow{Fn: goc, Block: isReg,
+				Target: func(x ssa.Instruction) bool { return x == ssa.Instruction(createCall) }},
+				"the create function can run for a key without this goroutine having registered it as in flight: two creations of one key can overlap")
+		}
 		// registration is conditional on "nobody else is creating": dominated by the not-present edge of the in-flight lookup
 		ir.Instrs(goc, func(in ssa.Instruction) {
 			if !isReg(in) {
 				return
 			}
 			mu := in.(*ssa.MapUpdate)
-			ok := ir.HasFact(in.Block(), func(f ir.Fact) bool {
-				f = f.StripNot()
-				ex, isEx := f.Cond.(*ssa.Extract)
-				if !isEx || ex.Index != 1 || f.True {
-					return false
-				}
-				lk, isLk := ex.Tuple.(*ssa.Lookup)
-				if !isLk {
+			isLookup := func(v ssa.Value, commaOk bool) bool {
+				lk, isLk := v.(*ssa.Lookup)
+				if !isLk || lk.CommaOk != commaOk {
 					return false
 				}
 				_, isIn := loadOfField(lk.X, r.inflight)
-				return isIn && same(lk.Index, mu.Key)
+				return isIn && sameKeyH(lk.Index, mu.Key)
+			}
+			ok := ir.HasFact(in.Block(), func(f ir.Fact) bool {
+				// the comma-ok form: the "present" result is false
+				ff := f.StripNot()
+				if ex, isEx := ff.Cond.(*ssa.Extract); isEx && ex.Index == 1 && !ff.True && isLookup(ex.Tuple, true) {
+					return true
+				}
+				// the nil form: the looked-up record is nil (registrations never store nil)
+				if cm, isCmp := f.Cmp(); isCmp && cm.Op == token.EQL && regsNonNil {
+					x, y := cm.X, cm.Y
+					if ir.IsNilConst(x) {
+						x, y = y, x
+					}
+					if ir.IsNilConst(y) {
+						x = ir.Resolve(x)
+						if isLookup(x, false) {
+							return true
+						}
+						if ex, isEx := x.(*ssa.Extract); isEx && ex.Index == 0 && isLookup(ex.Tuple, true) {
+							return true
+						}
+					}
+				}
+				return false
 			})
 			c.Decide("C09.R2", goc, "registration only when no creation is in flight", in, ok, "an in-flight entry is overwritten although another goroutine is creating this key")
 			// from the registration every path to an exit closes the channel and deletes the entry
-			ch := mu.Value
+			rec := ir.Resolve(mu.Value)
 			isClose := func(x ssa.Instruction) bool {
 				cc := builtinCall(x, "close")
 				if cc == nil {
 					return false
 				}
-				for _, o := range phiClosure(ir.Resolve(cc.Args[0])) {
-					if o == ir.Resolve(ch) {
+				for _, o := range phiClosure(recordOf(cc.Args[0])) {
+					if ir.Resolve(o) == rec {
 						return true
 					}
 				}
 				return false
 			}
-			c.NoPath("C09.R2", "registered creation closes its channel", in, ir.Query{Fn: goc, From: in, Block: isClose, Target: ir.IsExit},
+			c.NoFlow("C09.R2", "registered creation closes its channel", in, ir.Flow{Fn: goc, From: in, Block: isClose, Target: ir.IsExit},
 				"a creation can finish without closing its in-flight channel: waiters block forever")
-			c.NoPath("C09.R2", "registered creation deregisters", in, ir.Query{Fn: goc, From: in, Block: isDereg, Target: ir.IsExit},
+			c.NoFlow("C09.R2", "registered creation deregisters", in, ir.Flow{Fn: goc, From: in, Block: isDereg, Target: ir.IsExit},
 				"a creation can finish without removing its in-flight entry: the key can never be created again")
 		})
 		// close, deregister and insert in one critical section: no Unlock between close and the Add / deregister
 		ir.Instrs(goc, func(in ssa.Instruction) {
 			if cc := builtinCall(in, "close"); cc != nil {
-				ls := ir.ComputeLockset(goc, nil)
-				c.Decide("C09.R2", goc, "channel closed under the lock", in, ls.Held(in, mpath), "the in-flight channel is closed without the lock")
+				c.Decide("C09.R2", goc, "channel closed under the lock", in, lv.Held(in, mpath), "the in-flight channel is closed without the lock")
 				// no path close -> unlock -> Add
 				bad := false
 				ir.Instrs(goc, func(u ssa.Instruction) {
 					if !r.isUnlock(u) {
 						return
 					}
-					w1, _ := (ir.Query{Fn: goc, From: in, Target: func(x ssa.Instruction) bool { return x == u }, Block: r.isLock}).Find()
+					w1, _ := (ir.Flow{Fn: goc, From: in, Target: func(x ssa.Instruction) bool { return x == u }, Block: r.isLock}).Find()
 					if w1 == nil {
 						return
 					}
-					w2, _ := (ir.Query{Fn: goc, From: u, Target: func(x ssa.Instruction) bool { return r.itemsCall(x, r.mAdd) != nil || isDereg(x) }, Block: func(x ssa.Instruction) bool {
+					w2, _ := (ir.Flow{Fn: goc, From: u, Target: func(x ssa.Instruction) bool { return r.itemsCall(x, r.mAdd) != nil || isDereg(x) }, Block: func(x ssa.Instruction) bool {
 						return x == in || fnValueCall(x, r.create) != nil
 					}}).Find()
 					if w2 != nil {
@@ -727,39 +1147,59 @@ func runC09(c *Ctx) {
 		})
 		// census: writers of the in-flight table
 		for _, fn := range c.P.FuncsOf("container/lru") {
+			fn := fn
 			ir.Instrs(fn, func(in ssa.Instruction) {
 				if _, _, ok := storeToField(in, r.inflight); ok {
-					isCtor := fn.Signature.Recv() == nil
+					isCtor := rootFnH(fn).Signature.Recv() == nil
 					c.Decide("C09.R2", fn, "in-flight table replaced only by the constructor", in, isCtor, "the in-flight table is replaced while creations may be running: their markers vanish and a second creation of the same key starts")
 				}
-				if (isReg(in) || isDereg(in)) && fn != goc {
-					c.Decide("C09.R2", fn, "in-flight entries written only by GetOrCreate", in, false, "an in-flight entry is added or removed outside the creating goroutine's GetOrCreate")
+				if (isReg(in) || isDereg(in)) && rootFnH(fn) != goc {
+					// a private helper / literal that is only ever run from GetOrCreate is code of GetOrCreate
+					onlyGoc := lv.holdsInter(in, func(at ssa.Instruction) bool { return rootFnH(at.Parent()) == goc })
+					c.Decide("C09.R2", fn, "in-flight entries written only by GetOrCreate", in, onlyGoc, "an in-flight entry is added or removed outside the creating goroutine's GetOrCreate")
 				}
 			})
 		}
-		// deregistration only by the creator: dominated by the create call
-		ir.Instrs(goc, func(in ssa.Instruction) {
-			if isDereg(in) {
-				c.Decide("C09.R2", goc, "deregistration by the creator", in, ir.Dominates(createCall, in), "an in-flight entry is removed by a goroutine that did not run the creation")
-			}
-		})
+		// deregistration only by the creator: dominated by the create call (in a helper: at every place it is run from)
+		for _, fn := range lv.reachable(goc) {
+			fn := fn
+			ir.Instrs(fn, func(in ssa.Instruction) {
+				if isDereg(in) {
+					byCreator := lv.holdsInter(in, func(at ssa.Instruction) bool { return at.Parent() == goc && ir.Dominates(createCall, at) })
+					c.Decide("C09.R2", fn, "deregistration by the creator", in, byCreator, "an in-flight entry is removed by a goroutine that did not run the creation")
+				}
+			})
+		}
 	}
 	c.R.Floor("C09.R2", 8)
 
 	// R3 wait and create unlocked; waiter retries
 	{
-		ls := ir.ComputeLockset(goc, nil)
-		c.Decide("C09.R3", goc, "create runs with the lock released", createCall, len(ls.Any(createCall)) == 0, "the create function runs under the cache mutex: every other key is blocked and a create that uses the cache deadlocks")
+		// a lookup: items.Get, or a call of a package function that performs one on every path (the first critical section
+		// moved into a helper, or run as a literal under a withLock-style wrapper)
+		lookupEff := newMustEffectH(lv, func(x ssa.Instruction) bool { return r.itemsCall(x, r.mGet) != nil })
+		c.Decide("C09.R3", goc, "create runs with the lock released", createCall, len(lv.Any(createCall)) == 0, "the create function runs under the cache mutex: every other key is blocked and a create that uses the cache deadlocks")
 		n := 0
 		ir.Instrs(goc, func(in ssa.Instruction) {
-			u, ok := in.(*ssa.UnOp)
-			if !ok || u.Op != token.ARROW {
+			// a wait: a channel receive, as a statement/expression or as a case of a blocking select
+			isWait := false
+			switch x := in.(type) {
+			case *ssa.UnOp:
+				isWait = x.Op == token.ARROW
+			case *ssa.Select:
+				for _, st := range x.States {
+					if x.Blocking && st.Dir == types.RecvOnly {
+						isWait = true
+					}
+				}
+			}
+			if !isWait {
 				return
 			}
 			n++
-			c.Decide("C09.R3", goc, "in-flight wait with the lock released", in, len(ls.Any(in)) == 0, "waiting for the in-flight creation under the cache mutex deadlocks with the creator")
-			c.NoPath("C09.R3", "waiter goes back to the lookup", in, ir.Query{Fn: goc, From: in,
-				Block:  func(x ssa.Instruction) bool { return r.itemsCall(x, r.mGet) != nil },
+			c.Decide("C09.R3", goc, "in-flight wait with the lock released", in, len(lv.Any(in)) == 0, "waiting for the in-flight creation under the cache mutex deadlocks with the creator")
+			c.NoFlow("C09.R3", "waiter goes back to the lookup", in, ir.Flow{Fn: goc, From: in,
+				Block:  lookupEff.Is,
 				Target: func(x ssa.Instruction) bool { return ir.IsExit(x) || fnValueCall(x, r.create) != nil }},
 				"after waiting for an in-flight creation the goroutine does not look the key up again")
 		})
@@ -772,14 +1212,14 @@ func runC09(c *Ctx) {
 	c.R.Floor("C09.R4", 2)
 
 	// R5 the delete callback runs under the mutex, in the critical section of the removal it belongs to
-	for _, fn := range r.methods {
-		ls := ir.ComputeLockset(fn, nil)
+	for _, fn := range r.bodies {
+		fn := fn
 		ir.Instrs(fn, func(in ssa.Instruction) {
-			cb := fnValueCall(in, r.onDel)
+			cb, _, _ := r.cbCall(in)
 			if cb == nil {
 				return
 			}
-			held := ls.Held(in, mpath)
+			held := lv.Held(in, mpath)
 			c.Decide("C09.R5", fn, "delete callback under the cache mutex", in, held, "the delete callback runs after the mutex was released: Clear/Remove can complete while a value is still being deleted, and a new value for the key can be created before the old one is deleted")
 			if held {
 				// the removal it reports happened in this critical section: no Lock between a Remove and the callback
@@ -792,8 +1232,8 @@ func runC09(c *Ctx) {
 						if !r.isLock(l) {
 							return
 						}
-						w1, _ := (ir.Query{Fn: fn, From: rm, Block: func(x ssa.Instruction) bool { return x == in }, Target: func(x ssa.Instruction) bool { return x == l }}).Find()
-						w2, _ := (ir.Query{Fn: fn, From: l, Block: func(x ssa.Instruction) bool { return x == rm }, Target: func(x ssa.Instruction) bool { return x == in }}).Find()
+						w1, _ := (ir.Flow{Fn: fn, From: rm, Block: func(x ssa.Instruction) bool { return x == in }, Target: func(x ssa.Instruction) bool { return x == l }}).Find()
+						w2, _ := (ir.Flow{Fn: fn, From: l, Block: func(x ssa.Instruction) bool { return x == rm }, Target: func(x ssa.Instruction) bool { return x == in }}).Find()
 						if w1 != nil && w2 != nil {
 							bad = true
 						}
@@ -812,6 +1252,7 @@ func runC09(c *Ctx) {
 // lruCapacityRule is C09.R4 / C11.R4.
 func lruCapacityRule(c *Ctx, r *lruRoles, rule string) {
 	goc := r.getOrCreate
+	lv := r.locks
 	var createCall *ssa.Call
 	ir.Instrs(goc, func(in ssa.Instruction) {
 		if cc := fnValueCall(in, r.create); cc != nil {
@@ -821,62 +1262,84 @@ func lruCapacityRule(c *Ctx, r *lruRoles, rule string) {
 	if createCall == nil {
 		c.Fatalf("GetOrCreate: create call not found")
 	}
+	// afterCreate: the instruction runs after the create call of GetOrCreate - it is dominated by it, or it sits in a
+	// private helper / a literal that is only run from places dominated by it
+	scope := r.gocScope()
+	afterCreate := func(x ssa.Instruction) bool {
+		return lv.holdsInterIn(x, scope, func(at ssa.Instruction) bool { return at.Parent() == goc && ir.Dominates(createCall, at) })
+	}
 	// R4 capacity
 	{
-		n := 0
-		ir.Instrs(goc, func(in ssa.Instruction) {
-			add := r.itemsCall(in, r.mAdd)
-			if add == nil {
-				return
+		n, elsewhere := 0, 0
+		isCapTest := func(x ssa.Instruction) bool {
+			iff, ok := x.(*ssa.If)
+			if !ok {
+				return false
 			}
-			// miss-path insert = dominated by the create call
-			if !ir.Dominates(createCall, add) {
-				return
+			cm, ok := ir.AsCmp(iff.Cond)
+			if !ok {
+				return false
 			}
-			n++
-			isCapTest := func(x ssa.Instruction) bool {
-				iff, ok := x.(*ssa.If)
-				if !ok {
-					return false
-				}
-				cm, ok := ir.AsCmp(iff.Cond)
-				if !ok {
-					return false
-				}
-				lenX := r.itemsCall(asInstr(cm.X), r.mLen) != nil
-				lenY := r.itemsCall(asInstr(cm.Y), r.mLen) != nil
-				_, capX := loadOfField(cm.X, r.capacity)
-				_, capY := loadOfField(cm.Y, r.capacity)
-				return (lenX && capY) || (capX && lenY)
-			}
-			c.NoPath(rule, "insert followed by the capacity test before unlock", add, ir.Query{Fn: goc, From: add, Block: isCapTest,
-				Target: func(x ssa.Instruction) bool { return r.isUnlock(x) || ir.IsExit(x) }},
-				"a value is inserted and the lock released without the capacity test: with overlapping creations the cache stays above its capacity")
-		})
-		if n == 0 {
-			c.Decide(rule, goc, "miss path inserts under the creator", nil, false, "no insert after the create call found")
+			lenX := r.itemsCall(asInstr(cm.X), r.mLen) != nil
+			lenY := r.itemsCall(asInstr(cm.Y), r.mLen) != nil
+			_, capX := loadOfField(cm.X, r.capacity)
+			_, capY := loadOfField(cm.Y, r.capacity)
+			return (lenX && capY) || (capX && lenY)
 		}
-		// the eviction happens in the same critical section as the insert: Remove of First dominated by the Add
-		ir.Instrs(goc, func(in ssa.Instruction) {
-			rem := r.itemsCall(in, r.mRemove)
-			if rem == nil {
-				return
+		for _, fn := range lv.reachable(goc) {
+			if !scope[fn] {
+				continue
 			}
-			if ex, ok := ir.Resolve(rem.Call.Args[1]).(*ssa.Extract); ok {
-				if fc, ok := ex.Tuple.(*ssa.Call); ok && r.itemsCall(fc, r.mFirst) != nil {
-					okDom := false
-					ir.Instrs(goc, func(x ssa.Instruction) {
-						if a := r.itemsCall(x, r.mAdd); a != nil && ir.Dominates(createCall, a) && ir.Dominates(a, rem) {
-							// no unlock between
-							if w, _ := (ir.Query{Fn: goc, From: a, Block: func(y ssa.Instruction) bool { return y == ssa.Instruction(rem) }, Target: r.isUnlock}).Find(); w == nil || true {
-								okDom = true
-							}
+			fn := fn
+			ir.Instrs(fn, func(in ssa.Instruction) {
+				add := r.itemsCall(in, r.mAdd)
+				if add == nil {
+					return
+				}
+				// miss-path insert = after the create call
+				if !afterCreate(add) {
+					if fn != goc {
+						elsewhere++
+					}
+					return
+				}
+				n++
+				c.NoFlow(rule, "insert followed by the capacity test before unlock", add, ir.Flow{Fn: fn, From: add, Block: isCapTest,
+					Target: func(x ssa.Instruction) bool { return r.isUnlock(x) || ir.IsExit(x) }},
+					"a value is inserted and the lock released without the capacity test: with overlapping creations the cache stays above its capacity")
+			})
+		}
+		if n == 0 {
+			if elsewhere > 0 {
+				c.Undecided(rule, goc, "miss path inserts under the creator", nil, "the inserts GetOrCreate performs sit in helpers that are also run from places the create call does not dominate")
+			} else {
+				c.Decide(rule, goc, "miss path inserts under the creator", nil, false, "no insert after the create call found")
+			}
+		}
+		// the eviction happens in the same critical section as the insert: Remove of First dominated by the Add of this
+		// creation (seen from inside a helper: at every place the helper is run from)
+		for _, fn := range lv.reachable(goc) {
+			if !scope[fn] {
+				continue
+			}
+			fn := fn
+			ir.Instrs(fn, func(in ssa.Instruction) {
+				rem := r.itemsCall(in, r.mRemove)
+				if rem == nil || !r.firstRooted(rem.Call.Args[1]) {
+					return
+				}
+				okDom := lv.holdsInterIn(rem, scope, func(at ssa.Instruction) bool {
+					found := false
+					ir.Instrs(at.Parent(), func(x ssa.Instruction) {
+						if a := r.itemsCall(x, r.mAdd); a != nil && ir.Dominates(a, at) && afterCreate(a) {
+							found = true
 						}
 					})
-					c.Decide(rule, goc, "eviction decided after the insert of this creation", rem, okDom, "the eviction is decided before the created value is inserted (a different critical section): overlapping creations each see room and nobody evicts")
-				}
-			}
-		})
+					return found
+				})
+				c.Decide(rule, fn, "eviction decided after the insert of this creation", rem, okDom, "the eviction is decided before the created value is inserted (a different critical section): overlapping creations each see room and nobody evicts")
+			})
+		}
 	}
 }
 
@@ -952,6 +1415,10 @@ func (c *Ctx) expirableAtomicity(r *lruRoles, rule string) {
 			switch ir.CalleeFullName(t) {
 			case "(time.Time).Before", "(time.Time).After":
 				return fromGOC(t.Call.Args[0], 0) || fromGOC(t.Call.Args[1], 0)
+			}
+			// the same test behind a predicate helper
+			if subj, nowV, ok := staleTestH(t, 0); ok {
+				return fromGOC(subj, 0) || fromGOC(nowV, 0)
 			}
 			return false
 		})
